@@ -27,6 +27,7 @@ the removed node.  A history is not extended past a step that broke a tree
 removed node do not stop the history.
 """
 import copy
+import keyword
 import os
 import signal
 import subprocess
@@ -57,7 +58,31 @@ class B(pg.Object):
   allow_symbolic_assignment = True
 
 
+@pg.members([(pg.typing.StrKey(), pg.typing.Any())])
+class W(pg.Object):
+  """Accepts any keyword: its attribute names may be arbitrary strings."""
+  allow_symbolic_assignment = True
+
+
+@pg.members([
+    ('m', pg.typing.Dict([(pg.typing.StrKey(), pg.typing.Any())])),
+    ('n', pg.typing.Dict([(pg.typing.StrKey(),
+                           pg.typing.Dict([(pg.typing.StrKey(), pg.typing.Any())]))])),
+    ('w', pg.typing.Object(W).noneable()),
+    ('x', pg.typing.List(pg.typing.Any(), default=[])),
+])
+class C(pg.Object):
+  allow_symbolic_assignment = True
+
+
 HEAD = "__name__ = 'c01_witness'\nimport copy\nimport pyglove as pg\n"
+CLASS_W = ("@pg.members([(pg.typing.StrKey(), pg.typing.Any())])\n"
+           "class W(pg.Object): allow_symbolic_assignment = True\n")
+CLASS_C = ("T = pg.typing\n"
+           "@pg.members([('m', T.Dict([(T.StrKey(), T.Any())])), "
+           "('n', T.Dict([(T.StrKey(), T.Dict([(T.StrKey(), T.Any())]))])), "
+           "('w', T.Object(W).noneable()), ('x', T.List(T.Any(), default=[]))])\n"
+           "class C(pg.Object): allow_symbolic_assignment = True\n")
 CLASS_A = ("@pg.members([('x', pg.typing.Any(default=None)), ('y', pg.typing.Any(default=None))])\n"
            "class A(pg.Object): allow_symbolic_assignment = True\n")
 CLASS_B = ("T = pg.typing\n"
@@ -93,14 +118,89 @@ TREES = {
 }
 
 
-class Op:
-  __slots__ = ('group', 'label', 'src', 'code', 'core')
+BASE_KINDS = tuple(TREES)
 
-  def __init__(self, group, label, src, core=False):
+# --------------------------------------------------------------------------
+# Key classes.  The path of a node is the sequence of KEYS that leads to it,
+# whatever the keys look like: a dict key (or the attribute name of an object
+# that takes arbitrary keywords) may contain the characters of the path
+# syntax ('.', '[', ']'), look like a list index, be empty, ... and is still
+# one key.  For every key class the trees below hold symbolic children under
+# such keys at every level (root dict, below a list, below an object, in
+# dicts with a value spec, as attribute names) and the whole operation
+# alphabet is instantiated with those keys and with inserted values that
+# carry such keys themselves.
+#   (label, family, existing key K, new key N)
+# --------------------------------------------------------------------------
+
+KEY_CLASSES = [
+    ('plain', None, 'k', 'z'),              # control: identifier-like keys
+    ('dot', 'path-syntax', 'a.b', 'y.z'),
+    ('dot-edge', 'path-syntax', '.a', 'z.'),
+    ('dot-only', 'path-syntax', '.', '..'),
+    ('index-suffix', 'path-syntax', 'x[0]', 'y[1]'),
+    ('index-only', 'path-syntax', '[0]', '[-1]'),
+    ('bracket-open', 'path-syntax', '[', 'a['),
+    ('bracket-close', 'path-syntax', ']', 'a]'),
+    ('bracketed-dotted', 'path-syntax', '[a.b]', 'c[y.z].w'),
+    ('digits', 'numeric-string', '0', '1'),
+    ('negative-digits', 'numeric-string', '-1', '-2'),
+    ('empty', 'empty-string', '', ' '),
+    ('space', 'other-text', 'a b', ' z'),
+    ('quotes', 'other-text', "a'b", 'y"z'),
+    ('backslash-newline', 'other-text', 'a\\b', 'y\nz'),
+    ('non-ascii', 'other-text', 'é', 'кл'),
+    ('member-name', 'member-name', 'sym_path', 'sym_parent'),
+    ('int', 'int', 0, 5),
+    ('negative-int', 'int', -1, -2),
+]
+KEY_CLASS = {c[0]: c for c in KEY_CLASSES}
+
+_KD_TREE = (
+    "r = pg.Dict({#K: {#K: {'i': 1}, 'e': [{#K: {'h': 1}}, 2, {#K: 1}]}, "
+    "'l': [{#K: {'j': [{#K: {}}]}}, A(x={#K: {'k': 1}}), 7, {'c': {#K: 1}}], "
+    "'d': {'m': {'n': 1}}})\n"
+    "ext = pg.Dict({#K: pg.Dict(v=pg.Dict({#K: 1})), 'j': [pg.Dict({#K: pg.Dict(e=1)})]})\n"
+    "t = ext[#K]\n"
+    "s = pg.Dict({#K: pg.Dict(h=1)})\n")
+_KO_TREE = (
+    "r = C(m={#K: {#K: {'i': 1}}, 'e': [{#K: {'h': 1}}, 2]}, "
+    "n={#K: {#K: {'j': 1}}, 'p': {}}, "
+    "w=W(**{#K: {#K: {'k': 1}}, 'y': [{#K: {}}]}), "
+    "x=[W(**{#K: [{#K: {}}]}), {#K: {'c': 1}}, 7])\n"
+    "ext = pg.Dict({#K: pg.Dict(v=pg.Dict({#K: 1})), 'j': [pg.Dict({#K: pg.Dict(e=1)})]})\n"
+    "t = ext[#K]\n"
+    "s = pg.Dict({#K: pg.Dict(h=1)})\n")
+
+
+def _subst(template, K, N):
+  return template.replace('#K', repr(K)).replace('#N', repr(N))
+
+
+KEY_KINDS = []
+for _label, _fam, _K, _N in KEY_CLASSES:
+  TREES['kd/' + _label] = _subst(_KD_TREE, _K, _N)
+  KEY_KINDS.append('kd/' + _label)
+  if isinstance(_K, str):     # attribute names / StrKey specs want strings
+    TREES['ko/' + _label] = _subst(_KO_TREE, _K, _N)
+    KEY_KINDS.append('ko/' + _label)
+
+
+def key_family(kind):
+  """None for the base trees and for the control class."""
+  return KEY_CLASS[kind.split('/', 1)[1]][1] if '/' in kind else None
+
+
+class Op:
+  __slots__ = ('group', 'label', 'src', 'code', 'core', 'vclass', 'tid')
+
+  def __init__(self, group, label, src, core=False, vclass=None, tid=None):
     self.group = group
     self.label = label
     self.src = src
     self.core = core
+    self.vclass = vclass    # class of the inserted value (None: no value)
+    self.tid = tid          # position in the alphabet, the same for every key class
     self.code = compile(src, '<op>', 'exec')
 
   def __repr__(self):
@@ -120,24 +220,80 @@ VALUES = [
     ('detached', 's'),
     ('fresh-holding-parented', 'pg.Dict(w=t, u=[t])'),
 ]
+# The same classes carrying the keys of a key class, plus a value that was
+# constructed with a root_path of its own (it must be re-addressed).
+KEY_VALUES = [
+    ('prim', '5'),
+    ('fresh', 'pg.Dict({#K: pg.Dict({#N: pg.Dict(m=1)})})'),
+    ('raw', "{#K: [{#N: {'m': 1}}]}"),
+    ('freshlist', 'pg.List([pg.Dict({#K: pg.Dict(m=1)})])'),
+    ('obj', 'A(x=pg.Dict({#K: pg.Dict(m=1)}))'),
+    ('parented-elsewhere', 't'),
+    ('parented-in-tree', '{IN}'),
+    ('detached', 's'),
+    ('fresh-holding-parented', "pg.Dict({#K: t, 'u': [t]})"),
+    ('fresh-with-root_path',
+     "pg.Dict({#K: pg.Dict({#N: pg.Dict()})}, root_path=pg.KeyPath(['q', #N]))"),
+]
 CORE_VALUES = ('fresh', 'parented-in-tree', 'detached')
 _FN = ('lambda k, v: pg.Dict(rb=pg.Dict(q=1)) if isinstance(v, int) else v, '
        'raise_on_no_change=False')
 
 
-def _vals(intree):
-  for label, src in VALUES:
+def _vals(intree, values=None):
+  for label, src in (values or VALUES):
     yield label, src.replace('{IN}', intree)
 
 
-def list_ops(L, intree, core_target=False):
+def _ident(k):
+  return isinstance(k, str) and k.isidentifier() and not keyword.iskeyword(k)
+
+
+def _setattr(o, k, v):
+  return f'{o}.{k} = {v}' if _ident(k) else f'setattr({o}, {k!r}, {v})'
+
+
+def _delattr(o, k):
+  return f'del {o}.{k}' if _ident(k) else f'delattr({o}, {k!r})'
+
+
+def _getattr(o, k):
+  return f'{o}.{k}' if _ident(k) else f'{o}.sym_getattr({k!r})'
+
+
+def _kwarg(k, v):
+  return f'{k}={v}' if _ident(k) else f'**{{{k!r}: {v}}}'
+
+
+def _pathkey(k):
+  """A rebind key that addresses the single key `k`."""
+  return repr(k) if _ident(k) or isinstance(k, int) else f'pg.KeyPath([{k!r}])'
+
+
+class _Adder:
+  """Collects the operations of one target; numbers them (tid)."""
+
+  def __init__(self, prefix, target, core_target):
+    self.ops = []
+    self.prefix = prefix
+    self.target = target
+    self.core_target = core_target
+    self.vclass = None
+    self.count = {}
+
+  def __call__(self, group, label, src, core=False):
+    g = self.prefix + group
+    n = self.count[(g, label)] = self.count.get((g, label), 0) + 1
+    self.ops.append(Op(g, label, src, core and self.core_target, self.vclass,
+                       (self.target, g, label, n)))
+
+
+def list_ops(L, intree, core_target=False, values=None, target=None):
   """Every mutator of the list reachable through expression `L`."""
-  ops = []
+  add = _Adder('list.', target or L, core_target)
 
-  def add(group, label, src, core=False):
-    ops.append(Op(f'list.{group}', label, src, core and core_target))
-
-  for vl, v in _vals(intree):
+  for vl, v in _vals(intree, values):
+    add.vclass = vl
     c = vl in CORE_VALUES
     f = vl == 'fresh'
     add('setitem', f'first/{vl}', f'{L}[0] = {v}', c)
@@ -176,6 +332,7 @@ def list_ops(L, intree, core_target=False):
     add('setitem@typecheck_off', vl,
         f'with pg.enable_type_check(False): {L}[0] = {v}')
     add('add', vl, f'{L} = {L} + [{v}]')
+  add.vclass = None
   add('extend', 'symbolic-list-with-children', f'{L}.extend(ext.j)')
   add('extend', 'self', f'{L}.extend({L})')
   add('iadd', 'self', f'{L} += {L}')
@@ -226,51 +383,65 @@ def list_ops(L, intree, core_target=False):
   add('use_value_spec', '', f'{L}.use_value_spec(pg.typing.List(pg.typing.Any()))')
   add('append@sealed', '',
       f'{L}.seal()\ntry: {L}.append(pg.Dict(z=1))\nfinally: {L}.seal(False)')
-  return ops
+  return add.ops
 
 
-def dict_ops(D, intree, core_target=False, keys=('a', 'b')):
+def dict_ops(D, intree, core_target=False, keys=('a', 'b'), nk='z', nk2='y2',
+             values=None, target=None):
   """Every mutator of the dict reachable through expression `D`.
 
   keys[0]: an existing key holding a symbolic node; keys[1]: another existing
-  key ('' if none).
+  key ('' if none); nk, nk2: keys that do not exist yet.  Keys may be any
+  string or int: where the API takes a *path* (rebind) the key is passed as a
+  one-key `pg.KeyPath` unless it is identifier-like; the plain-string and the
+  formatted-path spellings are separate operations (they may address
+  something else or raise, but must leave well-formed trees).
   """
-  ops = []
+  add = _Adder('dict.', target or D, core_target)
   k0, k1 = keys
+  p0, pn, pn2 = _pathkey(k0), _pathkey(nk), _pathkey(nk2)
 
-  def add(group, label, src, core=False):
-    ops.append(Op(f'dict.{group}', label, src, core and core_target))
-
-  for vl, v in _vals(intree):
+  for vl, v in _vals(intree, values):
+    add.vclass = vl
     c = vl in CORE_VALUES
     f = vl == 'fresh'
     add('setitem', f'replace/{vl}', f'{D}[{k0!r}] = {v}', c)
-    add('setitem', f'new/{vl}', f"{D}['z'] = {v}", c)
+    add('setitem', f'new/{vl}', f"{D}[{nk!r}] = {v}", c)
     add('setitem', f'intkey/{vl}', f'{D}[1] = {v}')
-    add('setattr', f'replace/{vl}', f'{D}.{k0} = {v}')
-    add('setattr', f'new/{vl}', f'{D}.z = {v}')
-    add('setdefault', f'new/{vl}', f"{D}.setdefault('z', {v})", f)
+    add('setattr', f'replace/{vl}', _setattr(D, k0, v))
+    add('setattr', f'new/{vl}', _setattr(D, nk, v))
+    add('setdefault', f'new/{vl}', f"{D}.setdefault({nk!r}, {v})", f)
     add('setdefault', f'existing/{vl}', f'{D}.setdefault({k0!r}, {v})')
-    add('update', f'dict/{vl}', f"{D}.update({{{k0!r}: {v}, 'z': {v}}})", c)
-    add('update', f'kwargs/{vl}', f'{D}.update(z={v})')
-    add('update', f'pairs/{vl}', f"{D}.update([('z', {v}), ({k0!r}, 1)])")
-    add('ior', f'new/{vl}', f"{D} |= {{'z': {v}}}", f)
+    add('update', f'dict/{vl}', f"{D}.update({{{k0!r}: {v}, {nk!r}: {v}}})", c)
+    add('update', f'kwargs/{vl}', f'{D}.update({_kwarg(nk, v)})')
+    add('update', f'pairs/{vl}', f"{D}.update([({nk!r}, {v}), ({k0!r}, 1)])")
+    add('ior', f'new/{vl}', f"{D} |= {{{nk!r}: {v}}}", f)
     add('ior', f'replace/{vl}', f'{D} |= {{{k0!r}: {v}}}')
-    add('or', vl, f"{D} = {D} | {{'z': {v}}}")
-    add('rebind', f'replace/{vl}', f'{D}.rebind({{{k0!r}: {v}}})', c)
-    add('rebind', f'new/{vl}', f'{D}.rebind(z={v})')
+    add('or', vl, f"{D} = {D} | {{{nk!r}: {v}}}")
+    add('rebind', f'replace/{vl}', f'{D}.rebind({{{p0}: {v}}})', c)
+    add('rebind', f'new/{vl}',
+        f'{D}.rebind({nk}={v})' if _ident(nk) else f'{D}.rebind({{{pn}: {v}}})')
     add('rebind-multi', f'delete+new+new/{vl}',
-        f"{D}.rebind({{{k0!r}: pg.MISSING_VALUE, 'z': {v}, 'y2': {v}}})", f)
+        f"{D}.rebind({{{p0}: pg.MISSING_VALUE, {pn}: {v}, {pn2}: {v}}})", f)
     add('rebind@skip_notification', f'replace/{vl}',
-        f'{D}.rebind({{{k0!r}: {v}}}, skip_notification=True)')
+        f'{D}.rebind({{{p0}: {v}}}, skip_notification=True)')
     add('rebind@notify_parents_off', f'replace/{vl}',
-        f'{D}.rebind({{{k0!r}: {v}}}, notify_parents=False)')
+        f'{D}.rebind({{{p0}: {v}}}, notify_parents=False)')
     add('setitem@notify_off', f'replace/{vl}',
         f'with pg.notify_on_change(False): {D}[{k0!r}] = {v}')
     add('setitem@typecheck_off', f'new/{vl}',
-        f"with pg.enable_type_check(False): {D}['z'] = {v}")
+        f"with pg.enable_type_check(False): {D}[{nk!r}] = {v}")
+    if not _ident(k0) and isinstance(k0, str):
+      add('rebind-plain-string-key', f'replace/{vl}', f'{D}.rebind({{{k0!r}: {v}}})')
+      add('rebind-formatted-key', f'replace/{vl}',
+          f'{D}.rebind({{str(pg.KeyPath([{k0!r}])): {v}}})')
+    if not _ident(nk) and isinstance(nk, str):
+      add('rebind-plain-string-key', f'new/{vl}', f'{D}.rebind({{{nk!r}: {v}}})')
+      add('rebind-formatted-key', f'new/{vl}',
+          f'{D}.rebind({{str(pg.KeyPath([{nk!r}])): {v}}})')
+  add.vclass = None
   add('delitem', '', f'del {D}[{k0!r}]', True)
-  add('delattr', '', f'del {D}.{k0}')
+  add('delattr', '', _delattr(D, k0))
   add('delitem@notify_off', '',
       f'with pg.notify_on_change(False): del {D}[{k0!r}]')
   add('pop', 'existing', f's = {D}.pop({k0!r})', True)
@@ -278,7 +449,7 @@ def dict_ops(D, intree, core_target=False, keys=('a', 'b')):
   add('popitem', '', f's = {D}.popitem()[1]', True)
   add('clear', '', f'{D}.clear()', True)
   add('setitem', 'missing-value', f'{D}[{k0!r}] = pg.MISSING_VALUE')
-  add('rebind-delete', '', f'{D}.rebind({{{k0!r}: pg.MISSING_VALUE}})', True)
+  add('rebind-delete', '', f'{D}.rebind({{{p0}: pg.MISSING_VALUE}})', True)
   add('rebind-fn', '', f'{D}.rebind({_FN})')
   add('setitem', 'same-node', f'{D}[{k0!r}] = {D}[{k0!r}]')
   add('update', 'self', f'{D}.update({D})')
@@ -286,45 +457,63 @@ def dict_ops(D, intree, core_target=False, keys=('a', 'b')):
   add('ior', 'symbolic-dict-with-children', f'{D} |= ext')
   add('use_value_spec', '', f'{D}.use_value_spec(pg.typing.Dict())')
   add('setitem@sealed', '',
-      f"{D}.seal()\ntry: {D}['z'] = pg.Dict(z=1)\nfinally: {D}.seal(False)")
+      f"{D}.seal()\ntry: {D}[{nk!r}] = pg.Dict(z=1)\nfinally: {D}.seal(False)")
+  if not _ident(k0) and isinstance(k0, str):
+    add('rebind-plain-string-key', 'delete', f'{D}.rebind({{{k0!r}: pg.MISSING_VALUE}})')
+    add('rebind-formatted-key', 'delete',
+        f'{D}.rebind({{str(pg.KeyPath([{k0!r}])): pg.MISSING_VALUE}})')
   if k1:
+    p1 = _pathkey(k1)
     add('setitem', 'sibling', f'{D}[{k0!r}] = {D}[{k1!r}]', True)
     add('setitem', 'swap',
         f'{D}[{k0!r}], {D}[{k1!r}] = {D}[{k1!r}], {D}[{k0!r}]', True)
     add('rebind', 'swap',
-        f'{D}.rebind({{{k0!r}: {D}[{k1!r}], {k1!r}: {D}[{k0!r}]}})')
+        f'{D}.rebind({{{p0}: {D}[{k1!r}], {p1}: {D}[{k0!r}]}})')
     add('pop+setitem', 'reinsert-popped', f"s = {D}.pop({k0!r})\n{D}[{k1!r}] = s", True)
-  return ops
+  return add.ops
 
 
-def object_ops(O, intree, core_target=False, fields=('x', 'y')):
-  ops = []
+def object_ops(O, intree, core_target=False, fields=('x', 'y'), values=None,
+               target=None):
+  """Every mutator of the object `O`; `fields` may be arbitrary attribute
+  names (objects that take any keyword)."""
+  add = _Adder('object.', target or O, core_target)
   f0, f1 = fields
+  g0, g1 = _getattr(O, f0), _getattr(O, f1)
 
-  def add(group, label, src, core=False):
-    ops.append(Op(f'object.{group}', label, src, core and core_target))
+  def rb(*pairs, extra=''):
+    if all(_ident(k) for k, _ in pairs):
+      return f'{O}.rebind(' + ', '.join(f'{k}={v}' for k, v in pairs) + extra + ')'
+    return (f'{O}.rebind({{' + ', '.join(f'{_pathkey(k)}: {v}' for k, v in pairs)
+            + '}' + extra + ')')
 
-  for vl, v in _vals(intree):
+  for vl, v in _vals(intree, values):
+    add.vclass = vl
     c = vl in CORE_VALUES
-    add('setattr', f'{vl}', f'{O}.{f0} = {v}', c)
-    add('setattr', f'other/{vl}', f'{O}.{f1} = {v}')
-    add('rebind', f'kwargs/{vl}', f'{O}.rebind({f0}={v})', c)
-    add('rebind', f'both/{vl}', f'{O}.rebind({f0}={v}, {f1}={v})')
-    add('rebind@skip_notification', vl,
-        f'{O}.rebind({f0}={v}, skip_notification=True)')
+    add('setattr', f'{vl}', _setattr(O, f0, v), c)
+    add('setattr', f'other/{vl}', _setattr(O, f1, v))
+    add('rebind', f'kwargs/{vl}', rb((f0, v)), c)
+    add('rebind', f'both/{vl}', rb((f0, v), (f1, v)))
+    add('rebind@skip_notification', vl, rb((f0, v), extra=', skip_notification=True'))
     add('setattr@notify_off', vl,
-        f'with pg.notify_on_change(False): {O}.{f0} = {v}')
+        f'with pg.notify_on_change(False): {_setattr(O, f0, v)}')
     add('setattr@writable_accessors', vl,
-        f'with pg.allow_writable_accessors(True): {O}.{f0} = {v}')
+        f'with pg.allow_writable_accessors(True): {_setattr(O, f0, v)}')
     add('rebind', f'absent-field/{vl}', f'{O}.rebind({{"nofield": {v}}})')
-  add('rebind', 'reset-default', f'{O}.rebind({f0}=pg.MISSING_VALUE)', True)
-  add('rebind', 'swap', f'{O}.rebind({f0}={O}.{f1}, {f1}={O}.{f0})', True)
-  add('setattr', 'swap', f'{O}.{f0}, {O}.{f1} = {O}.{f1}, {O}.{f0}', True)
-  add('setattr', 'same-node', f'{O}.{f0} = {O}.{f0}')
+    if not _ident(f0):
+      add('rebind-plain-string-key', vl, f'{O}.rebind({{{f0!r}: {v}}})')
+      add('rebind-formatted-key', vl, f'{O}.rebind({{str(pg.KeyPath([{f0!r}])): {v}}})')
+  add.vclass = None
+  add('rebind', 'reset-default', rb((f0, 'pg.MISSING_VALUE')), True)
+  add('rebind', 'swap', rb((f0, g1), (f1, g0)), True)
+  add('setattr', 'swap',
+      f'{O}.{f0}, {O}.{f1} = {O}.{f1}, {O}.{f0}' if _ident(f0) and _ident(f1) else
+      f'_a, _b = {g0}, {g1}\n{_setattr(O, f0, "_b")}\n{_setattr(O, f1, "_a")}', True)
+  add('setattr', 'same-node', _setattr(O, f0, g0))
   add('rebind-fn', '', f'{O}.rebind({_FN})')
   add('setattr@sealed', '',
-      f'{O}.seal()\ntry: {O}.{f0} = pg.Dict(z=1)\nfinally: {O}.seal(False)')
-  return ops
+      f'{O}.seal()\ntry: {_setattr(O, f0, "pg.Dict(z=1)")}\nfinally: {O}.seal(False)')
+  return add.ops
 
 
 def whole_tree_ops():
